@@ -23,6 +23,10 @@ func checkC06(r *Run) {
 		ruleTLWPaths(r, p) // a held event reaches the destination as the one intact Write it was (C15's framing rules)
 		ruleTLWFrame(r, p)
 		ruleCopyBeforePublish(r, p, dw) // a writer in front of a diode recycles its buffer after Write returns (C10's rule)
+		ruleHlogIsolation(r, p) // loggers attached to contexts / requests are never written through in place (C18's rule)
+		if lh := p.Method("", "Logger", "Hook"); lh != nil {
+			ruleHookAppend(r, p, lh) // sibling loggers never share a hook slot (C03's rule)
+		}
 	}
 	r.Floor("A3", 8)
 	r.Floor("A13a", 20)
